@@ -39,6 +39,8 @@ static ogg_int64_t _get_prev_page_serial(OggVorbis_File *vf,ogg_int64_t begin,lo
   ASSUME(budget>0); budget--;
   CHECK(begin>0&&begin<=B[KL],"search start inside file");
   int L=link_of(begin-1); ogg_int64_t r=ND_long();
+  { int hit=0; for(int i=0;i<n && i<2;i++) if(list[i]==SER[L]) hit=1;   /* the real search READS the list (it may alias vf->serialnos+2 for the first link) */
+    CHECK(n>=1 && hit,"backward search is given the live serial-number list of the link it closes"); }
   ASSUME(r>=B[L] && r<begin && r<=LASTP[L]); if(begin>LASTP[L]) ASSUME(r==LASTP[L]);
   ogg_int64_t g = (r==LASTP[L])? G[L] : ND_long();
   *serialno=SER[L]; *granpos=g; vf->offset=begin; return r; }
